@@ -939,7 +939,9 @@ QUOTING_TEMPLATES = [b'require "fileinto"; fileinto %s;', b'if header :is [%s, "
                      b'if exists [%s] { discard; }', b'if anyof (exists %s, not header :matches %s [%s, %s]) { keep; }',
                      b'require "reject"; reject text:\nline one\n%s\n.\n;',
                      b'require "vacation"; vacation :subject text:\nsubj %s\n.\n :days 7 text:\nreason\n.\n;',
-                     b'require "vacation"; vacation :handle text:\nh\n.\n :subject %s "r";']
+                     b'require "vacation"; vacation :handle text:\nh\n.\n :subject %s "r";',
+                     # a multi-line string as a list item (valid RFC 5228; rejected by the unchanged parser, so skipped there)
+                     b'if header :is ["urgent", text:\nline %s\n.\n] "b" { keep; }']
 
 
 def bounded_roundtrip(pid, tier, seed):
@@ -1045,3 +1047,49 @@ def bounded_removal(pid, tier, seed):
     return {"name": "capability-removal", "bound": "%d generated valid scripts x each of %d capabilities removed from the require in turn: %d scripts"
             % (len(S), len(g.ALL_CAPS), evals), "rule": "distinct = script bytes", "evaluations": evals, "distinct": len(distinct),
             "samples": samples, "exhaustive": True, "violations": findings.violations(pid, "removal", (pid,))}
+
+
+# ----------------------------------------------------------------------------- C01: hand-written corners of the RFC grammar
+
+RFC_CORNERS = [
+    ("multi-line-string-as-list-item", b'if header :is ["a", text:\nx\n.\n] "b" { keep; }'),
+    ("multi-line-string-as-only-list-item", b'if exists [text:\nX-Spam\n.\n] { discard; }'),
+    ("multi-line-string-as-positional", b'redirect text:\nuser@example.org\n.\n;'),
+    ("multi-line-with-comment-after-text", b'redirect text: # to whom\nuser@example.org\n.\n;'),
+    ("dot-stuffed-line", b'require "reject"; reject text:\n..hidden\nplain\n.\n;'),
+    ("nested-test-lists", b'if anyof (allof (true, not false), not anyof (false, exists "X")) { stop; }'),
+    ("empty-block", b'if true { }'),
+    ("elsif-else-chain", b'if false { keep; } elsif true { stop; } elsif false { discard; } else { keep; }'),
+    ("block-in-else-in-block", b'if true { if false { keep; } else { if true { stop; } } }'),
+    ("comments-everywhere", b'# c\nif /* a */ header /* b */ :is # c\n "a" /* d */ "b" /* e */ { /* f */ keep /* g */ ; # h\n }'),
+    ("upper-case-everything", b'REQUIRE ["fileinto"]; IF HEADER :IS "A" "B" { FILEINTO "X"; }'),
+    ("number-quantifiers", b'if anyof (size :over 1K, size :under 2m, size :over 3G, size :under 4) { keep; }'),
+    ("comparator-tag", b'if header :comparator "i;octet" :contains "Subject" "x" { keep; }'),
+    ("escapes-in-strings", b'if header :is "a\\"b" "c\\\\" { keep; }'),
+    ("single-string-for-list", b'if exists "X" { keep; }'),
+    ("crlf-line-endings", b'if true {\r\n  keep;\r\n}\r\n'),
+    ("crlf-inside-multi-line", b'redirect text:\r\nuser@example.org\r\n.\r\n;'),
+]
+
+
+def bounded_rfc_corners(pid, tier, seed):
+    """hand-written valid scripts, one per rarely used corner of the RFC 5228 grammar: the reference must call each valid
+    (else the case is dropped as a mistake of mine) and the parser must accept it"""
+    evals = 0
+    violations = []
+    samples = []
+    for name, data in RFC_CORNERS:
+        v = ref.verdict(data)
+        if v.status != "valid":
+            continue
+        evals += 1
+        r = real_parse(data)
+        if r["verdict"] is True:
+            if len(samples) < 3:
+                samples.append({"corner": name, "verdict": "accepted"})
+        elif r["verdict"] == "exception":
+            violations.append(("%s.P.corners.%s" % (pid, name), {"script": data.decode("latin-1")}, "raised %s" % r["exc"]))
+        else:
+            violations.append(("%s.P.corners.%s" % (pid, name), {"script": data.decode("latin-1")}, "rejected: %s" % r.get("error")))
+    return {"name": "rfc-grammar-corners", "bound": "%d hand-written valid scripts, one per corner of the grammar" % evals,
+            "rule": "distinct = script", "evaluations": evals, "distinct": evals, "samples": samples, "exhaustive": True, "violations": violations}
